@@ -840,6 +840,12 @@ func (vm *vm) handleThrow(arg interface{}) *Exception {
 				vm.popCtx()
 				continue
 			}
+			if ex == nil && tf.finallyRet == tryGeneratorMarker {
+				// Same for the frame of a 'finally' block entered by generator.return()
+				// (see generator.enterNextFinallyFrame())
+				vm.popTryFrame()
+				continue
+			}
 			break
 		}
 
